@@ -152,10 +152,10 @@ theorem csv_conforms (env : Env) (s alt : Stack)
 
 /-- the consensus constants are the ones timelock.py defines -/
 theorem timelock_constants :
-    Gen.blockLimit = Consensus.LOCKTIME_THRESHOLD ∧ Gen.maxSequence = Consensus.SEQUENCE_FINAL ∧
+    Gen.blockLimit = Consensus.LOCKTIME_THRESHOLD ∧ Gen.opMaxSequence = Consensus.SEQUENCE_FINAL ∧
     Gen.seqDisableFlag = Consensus.SEQUENCE_LOCKTIME_DISABLE_FLAG ∧
     Gen.seqTimeFlag = Consensus.SEQUENCE_LOCKTIME_TYPE_FLAG ∧
-    Gen.seqMask = Consensus.SEQUENCE_LOCKTIME_MASK ∧ Gen.maxLocktime = 4294967295 ∧ Gen.csvMinVersion = 2 := by
+    Gen.seqMask = Consensus.SEQUENCE_LOCKTIME_MASK ∧ Gen.opMaxLocktime = 4294967295 ∧ Gen.csvMinVersion = 2 := by
   decide
 
 /-! ## final stack test -/
